@@ -12,6 +12,7 @@ from canon import f2bits, bits2f
 from env import import_dit
 
 ORDERS = [0, 0.5, 1, 2, 3.7, 'inf']
+LOG_BASES = [2, 'e', 10, 3.5, 0.5]
 
 # In-place changes of the SAME distribution object that may follow an evaluation; every one of them is followed by a
 # second evaluation of the same quantities, which must equal the definitions on the table as it is then.
@@ -57,7 +58,11 @@ class C04(object):
             "for n = 3 also by name under every assignment of three names to the columns), "
             "by index or by name (names: single letters or integers in ARBITRARY order relative to the columns, incl. "
             "integer names that permute the column indices; rv_mode explicit or left to the distribution); Renyi / Tsallis "
-            "of orders {0, 1/2, 1, 2, 3.7, inf}, extropy, perplexity, binary-entropy form; about half of the cases continue "
+            "of orders {0, 1/2, 1, 2, 3.7, inf}, extropy, perplexity, binary-entropy and binary-extropy form (a float argument); "
+            "the entropy of the whole joint distribution with rvs left out; a family of the same distributions stored as "
+            "log probabilities (bases 2, e, 10, 3.5, 0.5; scalar and joint) for the Shannon quantities, extropy and "
+            "perplexity, judged against the definitions in units of the distribution's base (perplexity is free of "
+            "the base); about half of the cases continue "
             "on the SAME object with 1-2 in-place changes (d[o]=p on stored outcomes, d.pmf[i]=p, d.pmf[:]=..., integer "
             "weights + normalize(), set_rv_names with permuted names), each followed by a second evaluation of the same "
             "quantities against the definitions on the then-current table; "
@@ -138,6 +143,26 @@ class C04(object):
                 gen.avoid_subnull(c)
             c['then'] = rand_steps(rng, c) if rng.random() < 0.3 else []
             yield c
+        # the same quantities on distributions stored as log probabilities: "the entropy is calculated in whatever base
+        # matches the distribution's pmf" (entropy / extropy have a branch of their own for them).  Renyi and Tsallis
+        # are NOT generated here: they read the stored logarithms as probabilities (reported, not judged).
+        for _ in range(90 if tier == 'quick' else 6000):
+            c = gen.rand_dist_case(rng, nmin=1, nmax=4, bases=LOG_BASES)
+            n = c['n']
+            c['what'] = rng.choice(['shannon', 'shannon', 'other'])
+            c['X'] = sorted(rng.sample(range(n), rng.randint(0, n)))
+            c['Y'] = sorted(rng.sample(range(n), rng.randint(0, n)))
+            if c['names'] and rng.random() < 0.6:
+                c['names'] = rand_names(rng, n)
+            c['byname'] = bool(c['names']) and rng.random() < 0.5
+            c['implicit'] = rng.random() < 0.3
+            c['scalar'] = n == 1 and c['space'] is None and rng.random() < 0.4
+            c['order'] = 1
+            c['rvs'] = rng.random() < 0.5
+            if c['what'] != 'shannon':
+                gen.avoid_subnull(c)
+            c['then'] = []
+            yield c
 
     def shrink(self, case):
         outs, pmf = case['outs'], [Fraction(p) for p in case['pmf']]
@@ -190,8 +215,19 @@ class C04(object):
                       'name-order=%s' % order,
                       'name-type=%s' % ('none' if names is None else type(names[0]).__name__),
                       'vars-in-XuY=%d' % len(set(X) | set(Y)),
+                      'base=%s' % case.get('base', 'linear'),
                       'steps=%d' % len(steps)] + ['step=%s' % k for k, _ in steps]
-        if scalar:
+        base = case.get('base', 'linear')
+        logb = base != 'linear'
+        # a log distribution's entropies come in units of its base: value in bits / log2(base)
+        unit = math.log2(gen.base_num(base)) if logb else 1.0
+        if logb and (what not in ('shannon', 'other') or steps):
+            raise ValueError('log-base cases: Shannon quantities, extropy, perplexity, no in-place changes')
+        if scalar and logb:
+            u = gen.UNIVERSE[klass]
+            d = dit.ScalarDistribution([u[o[0]] for o in case['outs']], [gen.log_of(Fraction(p), base) for p in case['pmf']],
+                                       base=base, sparse=case['sparse'], trim=case['trim'])
+        elif scalar:
             u = gen.UNIVERSE[klass]
             d = dit.ScalarDistribution([u[o[0]] for o in case['outs']], [float(Fraction(p)) for p in case['pmf']],
                                        sparse=case['sparse'], trim=case['trim'])
@@ -207,8 +243,13 @@ class C04(object):
         state = {'names': names}
 
         def table():
-            return [(gen.from_py(o, klass) if not scalar else [gen.UNIVERSE[klass].index(o)], float(v))
+            # stored outcomes with their LINEAR probabilities (a log distribution's stored values exponentiated)
+            return [(gen.from_py(o, klass) if not scalar else [gen.UNIVERSE[klass].index(o)],
+                     gen.lin_of(v, base) if logb else float(v))
                     for o, v in zip(d.outcomes, d.pmf)]
+
+        def U(x):
+            return x / unit if logb else x
 
         def nm(idx):
             return [state['names'][i] for i in idx] if byname else list(idx)
@@ -230,20 +271,25 @@ class C04(object):
                 if scalar:
                     v = float(H1(d))
                     mv = bits2f(drv.call('entf', ['entropy', None, [f2bits(p) for _, p in rows]]))
-                    checks.append(('entropy(scalar)', v, mv, Href([0])))
+                    checks.append(('entropy(scalar)', v, U(mv), U(Href([0]))))
                 else:
                     sX, sY = sorted(X), sorted(Y)
                     hx = float(H1(d, nm(X), rv_mode=rv_mode))
-                    checks.append(('H(X)', hx, bits2f(drv.call('combf', ['entropy', 0, [sX], [], ftab])), Href(X)))
+                    checks.append(('H(X)', hx, U(bits2f(drv.call('combf', ['entropy', 0, [sX], [], ftab]))), U(Href(X))))
                     hxy = float(conditional_entropy(d, nm(X), nm(Y), rv_mode=rv_mode))
                     ref = Href(sorted(set(X) | set(Y))) - Href(Y)
-                    checks.append(('H(X|Y)', hxy, bits2f(drv.call('combf', ['entropy', 0, [sX], sY, ftab])), ref))
+                    checks.append(('H(X|Y)', hxy, U(bits2f(drv.call('combf', ['entropy', 0, [sX], sY, ftab]))), U(ref)))
                     mi = float(mutual_information(d, nm(X), nm(Y), rv_mode=rv_mode))
                     refmi = Href(X) + Href(Y) - Href(sorted(set(X) | set(Y)))
-                    checks.append(('I(X:Y)', mi, bits2f(drv.call('combf', ['cmi', 0, [sX, sY], [], ftab])), refmi))
+                    checks.append(('I(X:Y)', mi, U(bits2f(drv.call('combf', ['cmi', 0, [sX, sY], [], ftab]))), U(refmi)))
                     if X and not (set(X) & set(Y)):
                         hm = float(Hm(d, [nm(X)], nm(Y), rv_mode=rv_mode))
-                        checks.append(('multivariate.entropy', hm, bits2f(drv.call('combf', ['entropy', 0, [sX], sY, ftab])), ref))
+                        checks.append(('multivariate.entropy', hm, U(bits2f(drv.call('combf', ['entropy', 0, [sX], sY, ftab]))), U(ref)))
+                    # the entropy of the whole joint distribution, rvs left out
+                    hall = float(H1(d))
+                    allv = list(range(n))
+                    checks.append(('H(all variables; rvs left out)', hall,
+                                   U(bits2f(drv.call('combf', ['entropy', 0, [allv], [], ftab]))), U(Href(allv))))
             else:
                 rvs = nm(X) if (case.get('rvs') and X and not scalar) else None
                 S = sorted(X) if rvs is not None else list(range(n))
@@ -281,7 +327,7 @@ class C04(object):
                     pe = [1.0 if 1.0 < p <= 1.0 + 1e-15 else p for p in ps]
                     mv = bits2f(drv.call('entf', ['extropy', None, [f2bits(p) for p in pe]]))
                     ref = -sum((1 - p) * math.log2(1 - p) for p in ps if p < 1)
-                    checks.append(('extropy', v, mv, ref))
+                    checks.append(('extropy', v, U(mv), U(ref)))
                     v2 = float(perplexity(d, **({'rvs': rvs, 'rv_mode': rv_mode} if rvs is not None else {})))
                     mv2 = bits2f(drv.call('entf', ['perplexity', None, [f2bits(p) for p in ps]]))
                     checks.append(('perplexity', v2, mv2, 2 ** (-sum(p * math.log2(p) for p in pos))))
@@ -293,6 +339,9 @@ class C04(object):
                         checks.append(('perplexity(X|Y)', v3, 2 ** mh, 2 ** h))
                     if len(ps) == 2:
                         checks.append(('binary entropy', float(H1(ps[0])), mv2 and math.log2(mv2), -sum(p * math.log2(p) for p in pos)))
+                        if 0.0 <= ps[0] <= 1.0 and ps[0] + ps[1] == 1.0:
+                            # binary extropy: a float argument p stands for the linear distribution (p, 1 - p), in bits
+                            checks.append(('binary extropy', float(extropy(ps[0])), mv, ref))
             return checks, Href
 
         def apply_step(kind, seed):
@@ -335,7 +384,7 @@ class C04(object):
 
         all_checks = []
         base_site = r.site
-        stage = ''
+        stage = ' [log distribution, base %s: entropies in units of the base]' % base if logb else ''
         for si in range(len(steps) + 1):
             if si > 0:
                 kind, seed = steps[si - 1]
@@ -349,6 +398,7 @@ class C04(object):
                 if not r.mismatch:
                     r.site = base_site + '(after in-place change)'
             rows = table()
+            raw = [float(v) for v in d.pmf]
             if si == 0:
                 r.nontrivial = sum(1 for _, v in rows if v > 0) >= 2 and (what != 'shannon' or bool(X))
             try:
@@ -373,13 +423,13 @@ class C04(object):
                 return r
             # the calls above are queries: the stored table is what it was, and asking again gives the same answers
             after = [float(v) for v in d.pmf]
-            if after != [p for _, p in rows]:
-                r.oracle_fail = '%s changed the stored pmf of its argument: %s -> %s%s' % (what, [p for _, p in rows][:6], after[:6], stage)
+            if after != raw:
+                r.oracle_fail = '%s changed the stored pmf of its argument: %s -> %s%s' % (what, raw[:6], after[:6], stage)
                 return r
             try:
                 again = float(H1(d)) if scalar else float(H1(d, nm(list(range(n))), rv_mode=rv_mode))
-                if abs(again - Href(list(range(n)))) > 1e-9:
-                    r.oracle_fail = 'entropy of the whole distribution after the calls is %r, the definition gives %r%s' % (again, Href(list(range(n))), stage)
+                if abs(again - U(Href(list(range(n))))) > 1e-9:
+                    r.oracle_fail = 'entropy of the whole distribution after the calls is %r, the definition gives %r%s' % (again, U(Href(list(range(n)))), stage)
                     return r
             except Exception as e:  # noqa
                 r.oracle_fail = 'entropy after the calls raised %s%s' % (type(e).__name__, stage)
